@@ -180,6 +180,29 @@ theorem C16_complete_user_paths (path dp : String) (heap : Heap) (ms : List Spec
 
 example : joinPathC "/api/" "/v1" = "/api/v1" ∧ joinPathC "/api" "" = "/api" ∧ joinPathC "" "v1/" = "/v1/" := by decide
 
+/-! ### `remove_prefix` / `remove_suffix` (the served document's endpoint path, the `$ref` prefix of OpenRPC) -/
+
+theorem stripPrefixChars_append (p s : List Char) : stripPrefixChars p (p ++ s) = some s := by
+  induction p with
+  | nil => rfl
+  | cons c cs ih => simp [stripPrefixChars, ih]
+
+/-- removing a prefix that was put in front gives the rest back -/
+theorem removePrefix_append (p s : String) : removePrefix (p ++ s) p = s := by
+  simp [removePrefix, String.toList_append, stripPrefixChars_append]
+
+/-- removing a non-empty suffix that was appended gives the front back (an empty suffix removes nothing) -/
+theorem removeSuffix_append (p s : String) : removeSuffix (p ++ s) s = p := by
+  unfold removeSuffix
+  split
+  · rename_i h
+    have : s = "" := by simpa using h
+    simp [this]
+  · simp [String.toList_append, List.reverse_append, stripPrefixChars_append]
+
+example : removeSuffix "/api/v1/openapi.json" "/openapi.json" = "/api/v1" ∧ removeSuffix "/api" "" = "/api"
+    ∧ removePrefix "#/components/schemas/User" "#/components/schemas/" = "User" ∧ removePrefix "abc" "x" = "abc" := by decide
+
 theorem putComp_mem (c x : String) (cs : List String) : x ∈ putComp c cs ↔ x = c ∨ x ∈ cs := by
   unfold putComp
   split
